@@ -80,7 +80,7 @@ def run_tlc_mc(module, cfg, wd, workers=8, timeout=900, simulate=None, extra_env
             m = re.match(r"^(\d+) states generated, (\d+) distinct states found", line)
             if m:
                 res["generated"], res["distinct"] = int(m.group(1)), int(m.group(2))
-            if line.startswith("Error: Invariant") or line.startswith("Error: Action property") or "is violated" in line:
+            if line.startswith("Error: Invariant") or line.startswith("Error: Action property") or "is violated" in line or "was violated" in line:
                 res["violation"] = (res["violation"] or "") + line + "\n"
             if line.startswith("Error:") and res["violation"] is None and "violated" not in line:
                 res.setdefault("errors", []).append(line)
